@@ -114,7 +114,7 @@ def check_triple(i, x, j, acc, case=None):
         try:
             lib = parse(text, route)
         except Exception as e:
-            acc.raised[type(e).__name__] += 1
+            acc.exception(e, case, route, size=len(x))
             continue
         blocks = lib.blocks
         if len(blocks) != len(a_full) + len(b_sig) or lib.failed_blocks:
